@@ -79,6 +79,36 @@ pub fn replay(cases: &str, verdicts: &str) {
                 }
             }
         }
+        // scale laws at an extreme power-of-two scale (exact): acovf scales with s^2, acf and the Yule-Walker coefficients do
+        // not move, the intercept scales with s - no absolute threshold may enter
+        if v.cases % 2 == 0 {
+            for e in [-45i32, 40] {
+                let f = 2f64.powi(e);
+                let xs: Vec<f64> = x.iter().map(|t| t * f).collect();
+                let sc = if e < 0 { "scaled-tiny" } else { "scaled-huge" };
+                let mut ok_cov = true; let mut ok_acf = true; let mut worst = json!(null);
+                for k in -(n as i32 - 1)..=(n as i32 - 1) {
+                    let ex = acovf_e[k.unsigned_abs() as usize] * f * f;
+                    let g = guard(|| acovf(&xs, k));
+                    if !g.map(|g| (g - ex).abs() <= 2f64.powi(-40) * 4.0 * f * f).unwrap_or(false) { ok_cov = false; worst = json!({"k": k, "got": g, "exp": ex}); }
+                    if nonconst {
+                        let ea = acf_e[k.unsigned_abs() as usize];
+                        let ga = guard(|| acf(&xs, k));
+                        if !ga.map(|g| (g - ea).abs() <= 2f64.powi(-40) * 4.0).unwrap_or(false) { ok_acf = false; worst = json!({"k": k, "got": ga, "exp": ea}); }
+                    }
+                }
+                v.check(ok_cov, "acovf", sc, &c, worst.clone());
+                if nonconst { v.check(ok_acf, "acf", sc, &c, worst.clone()); }
+                for (p, key) in [(1usize, "yw1"), (2usize, "yw2")] {
+                    let ex = f64s(&c[key]);
+                    if ex.is_empty() || n <= p { continue; }
+                    let g = guard(|| { let mut ar = AR::new(p); ar.fit(&xs); (fit_coeffs(&ar), ar.intercept) });
+                    let ok = g.as_ref().map(|(co, ic)| co.len() == p && co.iter().zip(&ex).all(|(a, b)| (a - b).abs() <= 2f64.powi(-28) * (1.0 + b.abs()))
+                        && (ic - num(&c["mean"]) * f).abs() <= 2f64.powi(-40) * f).unwrap_or(false);
+                    v.check(ok, &format!("AR::fit p{}", p), sc, &c, json!(g.as_ref().map(|(co, ic)| json!({"coeffs": fjs(co), "intercept": ic}))));
+                }
+            }
+        }
         // difference is the inverse of cumulative summation
         let cs: Vec<f64> = x.iter().scan(0.0, |s, t| { *s += t; Some(*s) }).collect();
         let g = guard(|| difference(cs.clone()));
